@@ -34,6 +34,16 @@ theorem joseph (P : Matrix n n ℚ) (H : Matrix m n ℚ) (Q : Matrix m m ℚ) (K
     Matrix.one_mul, Matrix.mul_one, Matrix.mul_assoc]
   abel
 
+/-- the Joseph form is positive semi-definite for ANY gain (not only the optimal one): this is why an inaccurate `S⁻¹` cannot
+make the updated covariance invalid -/
+theorem joseph_psd_any_gain (P : Matrix n n ℚ) (H : Matrix m n ℚ) (Q : Matrix m m ℚ) (K : Matrix n m ℚ)
+    (hP : P.PosSemidef) (hQ : Q.PosSemidef) : ((1 - K * H) * P * (1 - K * H)ᵀ + K * Q * Kᵀ).PosSemidef := by
+  apply PosSemidef.add
+  · have := hP.mul_mul_conjTranspose_same (1 - K * H)
+    rwa [conjTranspose_eq_transpose_of_trivial] at this
+  · have := hQ.mul_mul_conjTranspose_same K
+    rwa [conjTranspose_eq_transpose_of_trivial] at this
+
 theorem gain_mul_S (P : Matrix n n ℚ) (H : Matrix m n ℚ) (Q : Matrix m m ℚ)
     (hP : P.PosSemidef) (hQ : Q.PosDef) :
     (P * Hᵀ * (H * P * Hᵀ + Q)⁻¹) * (H * P * Hᵀ + Q) = P * Hᵀ := by
